@@ -107,6 +107,43 @@ func c42Origins(v ssa.Value) []ssa.Value {
 				return
 			}
 			out = append(out, v)
+		case *ssa.Call:
+			// the result of a new helper (`func (h *DestHandler) resolvedDest() string`)
+			// originates from what the helper returns
+			if h := newHelperCallee(x); h != nil && h.Signature.Results().Len() == 1 {
+				if rs := helperReturnsG4(h); len(rs) > 0 {
+					for _, r := range rs {
+						walk(retVal(r, 0), d+1)
+					}
+					return
+				}
+			}
+			out = append(out, v)
+		case *ssa.Extract:
+			if cl, ok := x.Tuple.(*ssa.Call); ok {
+				if h := newHelperCallee(cl); h != nil {
+					if rs := helperReturnsG4(h); len(rs) > 0 {
+						for _, r := range rs {
+							walk(retVal(r, x.Index), d+1)
+						}
+						return
+					}
+				}
+			}
+			out = append(out, v)
+		case *ssa.Parameter:
+			// a parameter of a new helper originates from the arguments of its call sites
+			if info := helperIdx[x.Parent()]; info != nil && len(info.sites) > 0 {
+				if k := paramIndex(x); k >= 0 {
+					for _, site := range info.sites {
+						if k < len(site.Call.Args) {
+							walk(site.Call.Args[k], d+1)
+						}
+					}
+					return
+				}
+			}
+			out = append(out, v)
 		default:
 			out = append(out, v)
 		}
